@@ -63,6 +63,10 @@ FIXED = [
     ('namechars', "@@namechars :: '-$'\n\nstart: {'let' @name | @int}* $ ;"),
     ('dot', "start: {!'x' /./}* 'x' $ ;"),
     ('join', "start: ','%{@int}+ ';'.{@name} $ ;"),
+    # right/centre recursion through closures, joins and gathers inside optionals (the shapes Optional.optimized() looks into)
+    ('nested-list', "start: value $ ;\n\nvalue: '[' [','.{value}] ']' | @int ;"),
+    ('nested-block', "start: [{item}] $ ;\n\nitem: '(' [{item}] ')' | @name ;"),
+    ('nested-expr', "start: expr $ ;\n\nexpr: term [';'%{expr}] ;\n\nterm: @int | '(' [expr] ')' ;"),
     # closures, joins and gathers whose element (and separator) can match the empty string: the no-progress guard must end them
     ('nullable-closure', "start: {['a']} 'b' $ ;"),
     ('nullable-join', "start: /,?/%{['a']} 'b' $ ;"),
@@ -79,6 +83,7 @@ SEEDS = {
     'kw': ['if a then b c', 'x y'], 'lr': ['(2*1)+3', '1+2*3-4', '((1))', 'a*(b+1)'], 'skipto': ['xx a yy 1', 'a'], 'const': ['5'], 'cut': ['(1) x (2)', 'x'],
     'ws': ['1\n2\n', '1 \n'], 'comments': ['a (* c *) 1 # e\nb', 'a'], 'nows': ['1,2,true', '1'], 'ignorecase': ['SELECT a From b 1', 'x'],
     'namechars': ['let a-b 1 let $x', '1'], 'dot': ['abx', 'x'], 'join': ['1,2,3 a;b', '1'],
+    'nested-list': ['[1,[2,3],[]]', '[]', '[[1]'], 'nested-block': ['a (b (c)) d', '()'], 'nested-expr': ['1;2;(3;4)', '(1'],
     'nullable-closure': ['a a b', 'b'], 'nullable-join': ['a,a b', 'b'], 'nullable-gather': ['a , a b', 'b'], 'nullable-ws-join': ['aa a b', 'b'], 'nullable-rules': ['a a, a b', 'b'],
 }
 
